@@ -12,11 +12,10 @@ PROOFS = {
     "C05": dict(coq=["theories/Prop_C05.v"], full=True,
                 missing="(\"the first two sides keep their access\" fails for a re-open on a fresh connection after a third side was "
                         "refused: known finding KF2, refuted witness in Prop_C05.v; everything else of the statement is proved)"),
-    "C06": dict(coq=["theories/Prop_C06.v"], full=False,
-                missing="Step isolation proved (a command of app A changes nothing of app B and sends nothing to B). The "
-                        "trace-level non-interference statement (B's observations equal those of the history with the other "
-                        "apps removed) is not proved; it is false as it stands because of known finding KF1 (refuted witness "
-                        "in Prop_C06.v)."),
+    "C06": dict(coq=["theories/Prop_C06.v"], full=True,
+                missing="(history-level non-interference is proved for histories in which no handler fails internally; a handler "
+                        "fails internally only through known finding KF1 / id collision / KF3, and KF1 is a genuine breach of "
+                        "isolation: refuted witness in Prop_C06.v)"),
     "C07": dict(coq=["theories/Prop_C07.v"], full=True, missing=""),
     "C08": dict(coq=["theories/Prop_C08.v"], full=True, missing=""),
     "C09": dict(coq=["theories/Prop_C09.v"], full=True, missing=""),
@@ -28,9 +27,7 @@ PROOFS = {
     "C13": dict(coq=["theories/Prop_C13.v"], full=True, missing=""),
     "C14": dict(coq=["theories/Prop_C14.v"], full=True,
                 missing="(a re-sent close of a surviving mailbox re-stamps `updated`: known finding KF4, stated in the theorem)"),
-    "C15": dict(coq=["theories/Prop_C15.v"], full=True,
-                missing="(usage effect of a close re-sent on a fresh connection -- a transient mailbox created and retired "
-                        "inside the command -- is characterised for the channel database (Prop_C08) but not for the usage tables)"),
+    "C15": dict(coq=["theories/Prop_C15.v"], full=True, missing=""),
     "C16": dict(coq=["theories/Prop_C16.v"], full=True, missing=""),
     "C17": dict(coq=["theories/Prop_C17.v"], full=True, missing=""),
     "C18": dict(coq=["theories/Prop_C18.v"], full=True, missing=""),
